@@ -299,10 +299,20 @@ func corrMinimize(r *rng, c *caseOut, n int) {
 			cond = func(x uint64) bool { return x%k == rem }
 		}
 		var probes []uint64
-		best := rapid.VerifMinimize(u, func(x uint64, label string) bool {
-			probes = append(probes, x)
-			return cond(x)
+		var best uint64
+		diverged := runTB(func() {
+			best = rapid.VerifMinimize(u, func(x uint64, label string) bool {
+				probes = append(probes, x)
+				if len(probes) > 100000 { // minimize asks a few thousand questions at most
+					panic("minimize does not terminate")
+				}
+				return cond(x)
+			})
 		})
+		if diverged != nil {
+			c.add(fmt.Sprintf("min %d %s", u, cmd), fmt.Sprintf("diverged: %v after %d probes", diverged, len(probes)))
+			continue
+		}
 		c.add(fmt.Sprintf("min %d %s", u, cmd), fmt.Sprintf("best=%d probes=%s", best, joinU64(probes)))
 	}
 }
